@@ -1,2 +1,10 @@
 import Ufw.Props.C03
-#print axioms Ufw.Props.C03.uninitialised_refuses
+#print axioms Ufw.Props.C03.firstHole_none_iff
+#print axioms Ufw.Props.C03.firstHole_some
+#print axioms Ufw.Props.C03.block_read_spec
+#print axioms Ufw.Props.C03.cellsFrom_get
+#print axioms Ufw.Props.C03.block_read_length
+#print axioms Ufw.Props.C03.block_read_uninitialised
+#print axioms Ufw.Props.C03.foreach_visits
+#print axioms Ufw.Props.C03.foreach_stops
+#print axioms Ufw.Props.C03.foreach_uninitialised
